@@ -1,6 +1,6 @@
 (* C19 - RSU vests use the nearest vest date within seven days back, never a guess.  Statements only. *)
 From Coq Require Import ZArith NArith List Bool Ascii String.
-Require Import CGT.Model.Date CGT.Model.Dsl CGT.Model.Schwab CGT.Model.Config CGT.Proofs.SchwabFacts.
+Require Import CGT.Model.Date CGT.Model.Dsl CGT.Model.Schwab CGT.Model.Config CGT.Proofs.SchwabFacts CGT.Proofs.SchwabAwards.
 Open Scope Z_scope.
 
 (* the look-back window regenerated from awards.rs is the 7 days the property states *)
@@ -21,6 +21,17 @@ Proof. intros. apply (get_fmv_spec 7). Qed.
 Theorem C19_missing : forall m sym z,
   get_fmv 7 m sym z = None <-> forall e, z - 7 <= e <= z -> amap_get m (upper_text sym, e) = None.
 Proof. intros. apply (get_fmv_none 7). Qed.
+
+(* Within one awards record the vest-date market value is preferred over the fallback price: the record's details are folded into
+   the table; `ins` is true exactly when some detail carries a vest-date value, and only when there is none is the record's
+   (first) fallback price stored.  For records with any number of details. *)
+Theorem C19_vest_value_preferred : forall a r m m' parent, award_date (aw_date a) = Ok parent -> aw_details a <> nil ->
+  build_awards (a :: r) m = Ok m' ->
+  exists m1 fb ins, award_details (upper_text (aw_symbol a)) parent (aw_details a) m None false = Ok (m1, fb, ins) /\
+    ins = existsb (vest_entry parent) (aw_details a) /\
+    build_awards r (if ins then m1 else match fb with Some (dt, f) => amap_put m (upper_text (aw_symbol a), days_of_civil dt) f | None => m end) = Ok m'.
+Proof. exact record_prefers_vest. Qed.
+Print Assumptions C19_vest_value_preferred.
 
 Print Assumptions C19_window_is_seven.
 Print Assumptions C19_lookup.
